@@ -1,1 +1,830 @@
-fn main() {}
+//! C31 — persisted queries execute only the document registered under the hash.
+//!
+//! Seam: `Schema::build(..).extension(ApolloPersistedQueries::new(storage)).finish()`,
+//! requests deserialized from their JSON wire form and run through `Schema::execute`.
+//! Engine: `bfs` over request histories. A state is a history replayed on a fresh
+//! schema + storage; its canonical key is (reference map hash→document in eviction
+//! order, storage kind, last outcome, what a hash-only lookup of every probe hash
+//! answers — each probe on its own fresh replay —, and for the harness storage its
+//! literal contents).
+//!
+//! Storage kinds: `LruCacheStorage` with capacity 1, 2, 64 and a harness `CacheStorage`
+//! with FIFO eviction, capacity 1, 2, 64 (exact reference model). A linear "flood"
+//! script per LRU capacity reaches real evictions (scc::HashCache never holds fewer than
+//! 64 entries, so the BFS alone would not).
+
+use agv_engine::bfs::{bfs, BfsCfg, Step};
+use agv_engine::record::{Cx, Violation};
+use agv_engine::sched::drive;
+use async_graphql::extensions::apollo_persisted_queries::{ApolloPersistedQueries, CacheStorage, LruCacheStorage};
+use async_graphql::parser::types::ExecutableDocument;
+use async_graphql::{Context, EmptyMutation, EmptySubscription, Object, Request, Schema};
+use serde_json::{json, Value};
+use sha2::{Digest, Sha256};
+use std::collections::{BTreeSet, HashMap, VecDeque};
+use std::sync::atomic::{AtomicU64, Ordering};
+use std::sync::{Arc, Mutex};
+
+// ---------------------------------------------------------------------------------------------
+// harness schema: which resolvers ran identifies the document
+// ---------------------------------------------------------------------------------------------
+
+#[derive(Clone, Default)]
+struct Log(Arc<Mutex<Vec<&'static str>>>);
+
+struct Query;
+
+#[Object]
+impl Query {
+    async fn a(&self, ctx: &Context<'_>) -> i32 {
+        ctx.data_unchecked::<Log>().0.lock().unwrap().push("a");
+        1
+    }
+    async fn b(&self, ctx: &Context<'_>) -> i32 {
+        ctx.data_unchecked::<Log>().0.lock().unwrap().push("b");
+        2
+    }
+    async fn c(&self, ctx: &Context<'_>) -> i32 {
+        ctx.data_unchecked::<Log>().0.lock().unwrap().push("c");
+        3
+    }
+}
+
+struct Doc {
+    text: &'static str,
+    log: &'static [&'static str],
+    data: Value,
+    hash: String,
+}
+
+fn sha_hex(s: &str) -> String {
+    Sha256::digest(s.as_bytes()).iter().map(|b| format!("{b:02x}")).collect()
+}
+
+fn docs(n: usize) -> Vec<Doc> {
+    let all: Vec<(&'static str, &'static [&'static str], Value)> = vec![
+        ("{ a }", &["a"], json!({"a": 1})),
+        ("{ b }", &["b"], json!({"b": 2})),
+        ("{ x: a c }", &["a", "c"], json!({"x": 1, "c": 3})),
+        ("query Q { b c }", &["b", "c"], json!({"b": 2, "c": 3})),
+    ];
+    all.into_iter().take(n).map(|(text, log, data)| Doc { text, log, data, hash: sha_hex(text) }).collect()
+}
+
+/// A text whose hash can be supplied correctly but which is not a GraphQL document.
+const UNPARSABLE: &str = "{ a";
+
+// ---------------------------------------------------------------------------------------------
+// harness storage: FIFO eviction, contents readable
+// ---------------------------------------------------------------------------------------------
+
+#[derive(Default)]
+struct FifoInner {
+    cap: usize,
+    entries: VecDeque<(String, ExecutableDocument)>,
+}
+
+#[derive(Clone)]
+struct FifoStorage(Arc<Mutex<FifoInner>>);
+
+#[async_trait::async_trait]
+impl CacheStorage for FifoStorage {
+    async fn get(&self, key: String) -> Option<ExecutableDocument> {
+        self.0.lock().unwrap().entries.iter().find(|(k, _)| *k == key).map(|(_, d)| d.clone())
+    }
+    async fn set(&self, key: String, query: ExecutableDocument) {
+        let mut g = self.0.lock().unwrap();
+        if let Some(e) = g.entries.iter_mut().find(|(k, _)| *k == key) {
+            e.1 = query;
+            return;
+        }
+        g.entries.push_back((key, query));
+        while g.entries.len() > g.cap {
+            g.entries.pop_front();
+        }
+    }
+}
+
+#[derive(Clone, Copy, PartialEq, Eq, Hash, Debug)]
+enum Kind {
+    Lru(usize),
+    Fifo(usize),
+}
+
+impl Kind {
+    fn name(self) -> String {
+        match self {
+            Kind::Lru(c) => format!("lru:{c}"),
+            Kind::Fifo(c) => format!("fifo:{c}"),
+        }
+    }
+    fn parse(s: &str) -> Option<Kind> {
+        let (k, c) = s.split_once(':')?;
+        let c = c.parse().ok()?;
+        match k {
+            "lru" => Some(Kind::Lru(c)),
+            "fifo" => Some(Kind::Fifo(c)),
+            _ => None,
+        }
+    }
+}
+
+struct World {
+    schema: Schema<Query, EmptyMutation, EmptySubscription>,
+    log: Log,
+    fifo: Option<FifoStorage>,
+}
+
+fn world(kind: Kind) -> World {
+    let log = Log::default();
+    match kind {
+        Kind::Lru(c) => World { schema: Schema::build(Query, EmptyMutation, EmptySubscription).data(log.clone()).extension(ApolloPersistedQueries::new(LruCacheStorage::new(c))).finish(), log, fifo: None },
+        Kind::Fifo(c) => {
+            let st = FifoStorage(Arc::new(Mutex::new(FifoInner { cap: c, entries: VecDeque::new() })));
+            World { schema: Schema::build(Query, EmptyMutation, EmptySubscription).data(log.clone()).extension(ApolloPersistedQueries::new(st.clone())).finish(), log, fifo: Some(st) }
+        }
+    }
+}
+
+// ---------------------------------------------------------------------------------------------
+// events
+// ---------------------------------------------------------------------------------------------
+
+/// What the statement lets a request do, derived from its wire form by the reference
+/// (never from what the code did).
+#[derive(Clone, Debug, PartialEq)]
+enum Sem {
+    /// no extension: the text runs as an ordinary request, nothing is registered
+    Plain { doc: usize },
+    /// well-formed v1, text whose SHA-256 is the supplied hash
+    Register { doc: usize },
+    /// well-formed v1, matching hash, text does not parse: nothing to run or register
+    RegisterUnparsable,
+    /// well-formed v1, empty text
+    HashOnly { hash: String },
+    /// well-formed v1, text whose SHA-256 differs from the supplied hash
+    Mismatch,
+    /// well-formed, version other than 1
+    BadVersion,
+    /// no usable hash (missing / not a string / payload not an object): nothing may run
+    NoHash,
+    /// hash recoverable but not in canonical form (upper-case hex, positional payload, version
+    /// as string/float): rejecting is fine; honouring it as the canonical request is fine too
+    Lenient { as_register: Option<usize>, as_hash_only: Option<String> },
+    /// payload is JSON null with a text: rejecting is fine, treating it as absent is fine too
+    NullPayload { doc: usize },
+}
+
+#[derive(Clone, Debug)]
+struct Event {
+    name: String,
+    query: String,
+    payload: Option<Value>,
+    sem: Sem,
+}
+
+fn pq(version: Value, hash: Value) -> Value {
+    json!({"version": version, "sha256Hash": hash})
+}
+
+fn alphabet(ds: &[Doc]) -> Vec<Event> {
+    let mut v = Vec::new();
+    let ev = |name: String, query: &str, payload: Option<Value>, sem: Sem| Event { name, query: query.to_string(), payload, sem };
+    let unknown = "0".repeat(64);
+    let h_unp = sha_hex(UNPARSABLE);
+    for (i, d) in ds.iter().enumerate() {
+        let n = i + 1;
+        v.push(ev(format!("register(D{n})"), d.text, Some(pq(json!(1), json!(d.hash))), Sem::Register { doc: i }));
+        v.push(ev(format!("hash-only(H{n})"), "", Some(pq(json!(1), json!(d.hash))), Sem::HashOnly { hash: d.hash.clone() }));
+        v.push(ev(format!("plain(D{n})"), d.text, None, Sem::Plain { doc: i }));
+        for (j, e) in ds.iter().enumerate() {
+            if i != j {
+                v.push(ev(format!("register(D{n},H{})", j + 1), d.text, Some(pq(json!(1), json!(e.hash))), Sem::Mismatch));
+            }
+        }
+        v.push(ev(format!("register(D{n},v2)"), d.text, Some(pq(json!(2), json!(d.hash))), Sem::BadVersion));
+        v.push(ev(format!("hash-only(H{n},v2)"), "", Some(pq(json!(2), json!(d.hash))), Sem::BadVersion));
+        v.push(ev(format!("register(D{n},UPPER(H{n}))"), d.text, Some(pq(json!(1), json!(d.hash.to_uppercase()))), Sem::Lenient { as_register: Some(i), as_hash_only: None }));
+        v.push(ev(format!("hash-only(UPPER(H{n}))"), "", Some(pq(json!(1), json!(d.hash.to_uppercase()))), Sem::Lenient { as_register: None, as_hash_only: Some(d.hash.clone()) }));
+    }
+    // near misses of H1: a prefix of the right hash, the right hash with one digit changed, with a trailing space
+    let h1 = ds[0].hash.clone();
+    let mut flipped = h1.clone().into_bytes();
+    let last = flipped.len() - 1;
+    flipped[last] = if flipped[last] == b'0' { b'1' } else { b'0' };
+    let flipped = String::from_utf8(flipped).unwrap();
+    for (tag, h) in [("H1[..8]", h1[..8].to_string()), ("H1~lastdigit", flipped), ("H1+space", format!("{h1} ")), ("empty", String::new())] {
+        v.push(ev(format!("register(D1,{tag})"), ds[0].text, Some(pq(json!(1), json!(h))), Sem::Mismatch));
+        v.push(ev(format!("hash-only({tag})"), "", Some(pq(json!(1), json!(h))), Sem::HashOnly { hash: h.clone() }));
+    }
+    // a second text with the same leading hash digits is out of reach (2^32 work); prefix confusion is
+    // covered from the lookup side: register D1, then look up a hash that shares only a prefix with H1
+    let mut same_prefix = h1.clone().into_bytes();
+    for b in same_prefix[8..].iter_mut() {
+        *b = if *b == b'f' { b'0' } else { b'f' };
+    }
+    let same_prefix = String::from_utf8(same_prefix).unwrap();
+    v.push(ev("hash-only(H1[..8]+other)".into(), "", Some(pq(json!(1), json!(same_prefix.clone()))), Sem::HashOnly { hash: same_prefix.clone() }));
+    v.push(ev("register(D2,H1[..8]+other)".into(), ds[1].text, Some(pq(json!(1), json!(same_prefix))), Sem::Mismatch));
+    v.push(ev("hash-only(unknown)".into(), "", Some(pq(json!(1), json!(unknown))), Sem::HashOnly { hash: unknown.clone() }));
+    v.push(ev("hash-only(\"def\")".into(), "", Some(pq(json!(1), json!("def"))), Sem::HashOnly { hash: "def".into() }));
+    v.push(ev("register(D1,v0)".into(), ds[0].text, Some(pq(json!(0), json!(h1))), Sem::BadVersion));
+    v.push(ev("register(D1,v-1)".into(), ds[0].text, Some(pq(json!(-1), json!(h1))), Sem::BadVersion));
+    v.push(ev("register(D1,v4294967297)".into(), ds[0].text, Some(pq(json!(4294967297u64), json!(h1))), Sem::BadVersion));
+    v.push(ev("register(unparsable)".into(), UNPARSABLE, Some(pq(json!(1), json!(h_unp))), Sem::RegisterUnparsable));
+    v.push(ev("hash-only(H(unparsable))".into(), "", Some(pq(json!(1), json!(h_unp))), Sem::HashOnly { hash: h_unp.clone() }));
+    // malformed payloads, each as a would-be registration of D1 and as a would-be lookup of H1
+    let no_hash: Vec<(&str, Value)> = vec![
+        ("hash-missing", json!({"version": 1})),
+        ("hash-number", pq(json!(1), json!(123))),
+        ("hash-null", pq(json!(1), Value::Null)),
+        ("hash-list", pq(json!(1), json!([h1]))),
+        ("hash-bool", pq(json!(1), json!(true))),
+        ("hash-misspelt-key", json!({"version": 1, "sha256hash": h1})),
+        ("payload-string", json!(h1)),
+        ("payload-number", json!(1)),
+        ("payload-empty-object", json!({})),
+        ("payload-empty-list", json!([])),
+    ];
+    for (tag, p) in no_hash {
+        v.push(ev(format!("register(D1,{tag})"), ds[0].text, Some(p.clone()), Sem::NoHash));
+        v.push(ev(format!("hash-only({tag})"), "", Some(p), Sem::NoHash));
+    }
+    let lenient: Vec<(&str, Value)> = vec![
+        ("version-string", pq(json!("1"), json!(h1))),
+        ("version-float", pq(json!(1.0), json!(h1))),
+        ("version-missing", json!({"sha256Hash": h1})),
+        ("version-null", pq(Value::Null, json!(h1))),
+        ("version-bool", pq(json!(true), json!(h1))),
+        ("positional", json!([1, h1])),
+        ("extra-key", json!({"version": 1, "sha256Hash": h1, "extra": {"x": [1]}})),
+    ];
+    for (tag, p) in lenient {
+        v.push(ev(format!("register(D1,{tag})"), ds[0].text, Some(p.clone()), Sem::Lenient { as_register: Some(0), as_hash_only: None }));
+        v.push(ev(format!("hash-only(H1,{tag})"), "", Some(p), Sem::Lenient { as_register: None, as_hash_only: Some(h1.clone()) }));
+    }
+    v.push(ev("register(D1,payload-null)".into(), ds[0].text, Some(Value::Null), Sem::NullPayload { doc: 0 }));
+    v.push(ev("hash-only(payload-null)".into(), "", Some(Value::Null), Sem::NoHash));
+    v
+}
+
+fn probe_hashes(ds: &[Doc]) -> Vec<String> {
+    let mut p: Vec<String> = ds.iter().map(|d| d.hash.clone()).collect();
+    p.push(ds[0].hash.to_uppercase());
+    p.push(ds[0].hash[..8].to_string());
+    p.push(sha_hex(UNPARSABLE));
+    p.push("0".repeat(64));
+    p
+}
+
+// ---------------------------------------------------------------------------------------------
+// observation
+// ---------------------------------------------------------------------------------------------
+
+#[derive(Clone, Debug, PartialEq, Eq, Hash)]
+enum Out {
+    /// exactly document i ran: its resolvers once each, its data, no errors
+    Executed(usize),
+    /// nothing ran, the only error is PersistedQueryNotFound
+    NotFound,
+    /// nothing ran, some other error
+    Rejected,
+    /// anything else (resolvers of no single document, data with errors, no error at all …)
+    Other(String),
+    Panic(String),
+}
+
+impl Out {
+    fn code(&self) -> String {
+        match self {
+            Out::Executed(i) => format!("executed(D{})", i + 1),
+            Out::NotFound => "PersistedQueryNotFound".into(),
+            Out::Rejected => "rejected".into(),
+            Out::Other(s) => format!("other: {s}"),
+            Out::Panic(s) => format!("panic: {s}"),
+        }
+    }
+}
+
+fn request_json(query: &str, payload: &Option<Value>) -> Value {
+    match payload {
+        Some(p) => json!({"query": query, "extensions": {"persistedQuery": p}}),
+        None => json!({"query": query}),
+    }
+}
+
+fn exec(w: &World, ds: &[Doc], query: &str, payload: &Option<Value>) -> Out {
+    let req: Request = match serde_json::from_value(request_json(query, payload)) {
+        Ok(r) => r,
+        Err(e) => return Out::Other(format!("request JSON does not deserialize: {e}")),
+    };
+    w.log.0.lock().unwrap().clear();
+    let resp = match agv_engine::catch_quiet(|| drive(w.schema.execute(req))) {
+        Err(p) => return Out::Panic(p),
+        Ok(None) => return Out::Other("Schema::execute parked without a pending wake-up".into()),
+        Ok(Some(r)) => r,
+    };
+    let mut log: Vec<&'static str> = w.log.0.lock().unwrap().clone();
+    log.sort();
+    let data = serde_json::to_value(&resp.data).unwrap_or(Value::Null);
+    let msgs: Vec<String> = resp.errors.iter().map(|e| e.message.clone()).collect();
+    if log.is_empty() && data.is_null() && !msgs.is_empty() {
+        return if msgs.len() == 1 && msgs[0] == "PersistedQueryNotFound" { Out::NotFound } else { Out::Rejected };
+    }
+    if msgs.is_empty() {
+        for (i, d) in ds.iter().enumerate() {
+            let mut want: Vec<&str> = d.log.to_vec();
+            want.sort();
+            if log == want && data == d.data {
+                return Out::Executed(i);
+            }
+        }
+    }
+    Out::Other(format!("resolvers {log:?}, data {data}, errors {msgs:?}"))
+}
+
+// ---------------------------------------------------------------------------------------------
+// reference model
+// ---------------------------------------------------------------------------------------------
+
+#[derive(Clone, Debug, PartialEq, Eq, Hash)]
+struct Model {
+    kind: Kind,
+    /// registered hash → document, oldest first (FIFO kinds: bounded by the capacity)
+    entries: Vec<(String, usize)>,
+}
+
+impl Model {
+    fn new(kind: Kind) -> Model {
+        Model { kind, entries: Vec::new() }
+    }
+    fn exact(&self) -> bool {
+        matches!(self.kind, Kind::Fifo(_))
+    }
+    fn lookup(&self, h: &str) -> Option<usize> {
+        self.entries.iter().find(|(k, _)| k == h).map(|(_, d)| *d)
+    }
+    fn register(&mut self, h: &str, doc: usize) {
+        if let Some(e) = self.entries.iter_mut().find(|(k, _)| k == h) {
+            e.1 = doc;
+            return;
+        }
+        self.entries.push((h.to_string(), doc));
+        if let Kind::Fifo(cap) = self.kind {
+            while self.entries.len() > cap {
+                self.entries.remove(0);
+            }
+        }
+    }
+    /// Outcomes the statement admits for a hash-only lookup of `h`.
+    fn lookup_allowed(&self, h: &str) -> Vec<Out> {
+        match (self.lookup(h), self.exact()) {
+            (Some(d), true) => vec![Out::Executed(d)],
+            // an evicting store of unspecified policy may have dropped it
+            (Some(d), false) => vec![Out::Executed(d), Out::NotFound],
+            (None, _) => vec![Out::NotFound],
+        }
+    }
+}
+
+#[derive(Clone, Debug, PartialEq)]
+enum Effect {
+    None,
+    Register(String, usize),
+}
+
+/// (admitted outcome, its effect on the reference map, true = "any error will do")
+fn allowed(m: &Model, ds: &[Doc], e: &Event) -> Vec<(Out, Effect, bool)> {
+    let lookups = |h: &str| -> Vec<(Out, Effect, bool)> { m.lookup_allowed(h).into_iter().map(|o| (o, Effect::None, false)).collect() };
+    let reject = (Out::Rejected, Effect::None, true);
+    match &e.sem {
+        Sem::Plain { doc } => vec![(Out::Executed(*doc), Effect::None, false)],
+        Sem::Register { doc } => vec![(Out::Executed(*doc), Effect::Register(ds[*doc].hash.clone(), *doc), false)],
+        Sem::RegisterUnparsable | Sem::Mismatch | Sem::BadVersion | Sem::NoHash => vec![reject],
+        Sem::HashOnly { hash } => lookups(hash),
+        Sem::Lenient { as_register, as_hash_only } => {
+            let mut v = vec![reject];
+            if let Some(d) = as_register {
+                v.push((Out::Executed(*d), Effect::Register(ds[*d].hash.clone(), *d), false));
+            }
+            if let Some(h) = as_hash_only {
+                v.extend(lookups(h));
+            }
+            v
+        }
+        Sem::NullPayload { doc } => vec![reject, (Out::Executed(*doc), Effect::None, false)],
+    }
+}
+
+fn matches(allowed: &(Out, Effect, bool), got: &Out) -> bool {
+    if allowed.2 {
+        // "nothing ran and the request failed": the message is not the statement's business
+        matches!(got, Out::Rejected | Out::NotFound)
+    } else {
+        allowed.0 == *got
+    }
+}
+
+fn sem_tag(s: &Sem) -> &'static str {
+    match s {
+        Sem::Plain { .. } => "plain",
+        Sem::Register { .. } => "register",
+        Sem::RegisterUnparsable => "register-unparsable",
+        Sem::HashOnly { .. } => "hash-only",
+        Sem::Mismatch => "mismatch",
+        Sem::BadVersion => "bad-version",
+        Sem::NoHash => "no-hash",
+        Sem::Lenient { .. } => "non-canonical",
+        Sem::NullPayload { .. } => "null-payload",
+    }
+}
+
+/// Defect class from the discrepancy.
+fn classify(e: &Event, got: &Out, m: &Model) -> &'static str {
+    match got {
+        Out::Panic(_) => "panic",
+        Out::Executed(d) => match &e.sem {
+            Sem::HashOnly { hash } | Sem::Lenient { as_hash_only: Some(hash), .. } => match m.lookup(hash) {
+                Some(r) if r != *d => "hash-only-runs-other-document",
+                Some(_) => "unreachable",
+                None => "hash-only-runs-unregistered-document",
+            },
+            Sem::Mismatch => "executes-on-hash-mismatch",
+            Sem::BadVersion => "executes-on-unsupported-version",
+            Sem::NoHash => "executes-without-hash",
+            Sem::RegisterUnparsable => "executes-unparsable",
+            _ => "executes-other-document",
+        },
+        Out::NotFound | Out::Rejected => match &e.sem {
+            Sem::HashOnly { hash } if m.lookup(hash).is_some() && *got == Out::NotFound => "registered-document-not-found",
+            Sem::HashOnly { .. } => "hash-only-fails-without-PersistedQueryNotFound",
+            Sem::Register { .. } => "valid-registration-rejected",
+            Sem::Plain { .. } => "plain-request-rejected",
+            _ => "unexpected-rejection",
+        },
+        Out::Other(_) => "partial-or-foreign-execution",
+    }
+}
+
+// ---------------------------------------------------------------------------------------------
+// one BFS step
+// ---------------------------------------------------------------------------------------------
+
+struct Setup {
+    ds: Vec<Doc>,
+    alpha: Vec<Event>,
+    probes: Vec<String>,
+    /// Debug rendering of parse(text_i): how a stored document is recognised in the harness storage
+    doc_debug: Vec<String>,
+}
+
+fn setup(ndocs: usize) -> Setup {
+    let ds = docs(ndocs);
+    let alpha = alphabet(&ds);
+    let probes = probe_hashes(&ds);
+    let doc_debug = ds.iter().map(|d| format!("{:?}", async_graphql::parser::parse_query(d.text).expect("harness document parses"))).collect();
+    Setup { ds, alpha, probes, doc_debug }
+}
+
+/// Replays `hist`, judging every event; returns the model, the outcomes, and the first discrepancy.
+struct Replay {
+    model: Model,
+    outs: Vec<Out>,
+    bad: Option<(usize, Vec<String>)>,
+    world: World,
+}
+
+fn replay_hist(s: &Setup, kind: Kind, hist: &[u16], traces: &AtomicU64) -> Replay {
+    let w = world(kind);
+    let mut model = Model::new(kind);
+    let mut outs = Vec::new();
+    let mut bad = None;
+    traces.fetch_add(1, Ordering::Relaxed);
+    for (k, ei) in hist.iter().enumerate() {
+        let e = &s.alpha[*ei as usize];
+        let got = exec(&w, &s.ds, &e.query, &e.payload);
+        let al = allowed(&model, &s.ds, e);
+        match al.iter().find(|a| matches(a, &got)) {
+            Some(a) => {
+                if let Effect::Register(h, d) = &a.1 {
+                    model.register(h, *d);
+                }
+            }
+            None => {
+                if bad.is_none() {
+                    bad = Some((k, al.iter().map(|a| if a.2 { "rejected (any error), nothing runs".to_string() } else { a.0.code() }).collect()));
+                }
+            }
+        }
+        outs.push(got);
+    }
+    Replay { model, outs, bad, world: w }
+}
+
+/// What a hash-only lookup of each probe hash answers in the state reached by `hist`
+/// (each probe on its own fresh replay, so that probing never disturbs what it measures).
+fn probe_vector(s: &Setup, kind: Kind, hist: &[u16], traces: &AtomicU64) -> Vec<Out> {
+    s.probes
+        .iter()
+        .map(|p| {
+            let r = replay_hist(s, kind, hist, traces);
+            exec(&r.world, &s.ds, "", &Some(pq(json!(1), json!(p))))
+        })
+        .collect()
+}
+
+fn fifo_contents(s: &Setup, w: &World) -> Option<Vec<(String, String)>> {
+    w.fifo.as_ref().map(|f| {
+        f.0.lock()
+            .unwrap()
+            .entries
+            .iter()
+            .map(|(k, d)| {
+                let dbg = format!("{d:?}");
+                let id = s.doc_debug.iter().position(|x| *x == dbg).map(|i| format!("D{}", i + 1)).unwrap_or_else(|| format!("foreign document {dbg}"));
+                (k.clone(), id)
+            })
+            .collect()
+    })
+}
+
+type Memo = Mutex<HashMap<(Kind, Vec<u16>), (Vec<Out>, Option<Vec<(String, String)>>)>>;
+
+struct Counters {
+    traces: AtomicU64,
+    lru_registered_not_found: AtomicU64,
+    executed: AtomicU64,
+    rejected: AtomicU64,
+    not_found: AtomicU64,
+    unchanged_checks: AtomicU64,
+}
+
+fn names(s: &Setup, hist: &[u16]) -> Vec<String> {
+    hist.iter().map(|i| s.alpha[*i as usize].name.clone()).collect()
+}
+
+fn report(cx: &Cx, s: &Setup, kind: Kind, hist: &[u16], class: &str, detail: String) {
+    let e = &s.alpha[*hist.last().unwrap() as usize];
+    cx.violation(
+        Violation::new(class, format!("{detail}\n  storage {}\n  history {:?}", kind.name(), names(s, hist)), json!({"storage": kind.name(), "docs": s.ds.len(), "events": names(s, hist)}))
+            .key("event", sem_tag(&e.sem))
+            .key("storage", match kind {
+                Kind::Lru(_) => "lru",
+                Kind::Fifo(_) => "fifo",
+            }),
+    );
+}
+
+fn step(cx: &Cx, s: &Setup, kind: Kind, memo: &Memo, c: &Counters, hist: &[u16]) -> Option<Step> {
+    let r = replay_hist(s, kind, hist, &c.traces);
+    let mut ok = true;
+    if let Some((k, al)) = &r.bad {
+        if *k + 1 < hist.len() {
+            // an earlier transition already failed (and was reported when it was the last one)
+            return None;
+        }
+        ok = false;
+        let e = &s.alpha[hist[*k] as usize];
+        // model before the last event
+        let before = replay_model_before(s, kind, hist);
+        report(cx, s, kind, hist, classify(e, &r.outs[*k], &before), format!("{} answered {}; the statement admits {:?}\n  request {}", e.name, r.outs[*k].code(), al, request_json(&e.query, &e.payload)));
+    }
+    let pv = probe_vector(s, kind, hist, &c.traces);
+    let contents = fifo_contents(s, &r.world);
+    if !hist.is_empty() {
+        cx.eval();
+        let e = &s.alpha[*hist.last().unwrap() as usize];
+        match r.outs.last().unwrap() {
+            Out::Executed(_) => c.executed.fetch_add(1, Ordering::Relaxed),
+            Out::NotFound => c.not_found.fetch_add(1, Ordering::Relaxed),
+            _ => c.rejected.fetch_add(1, Ordering::Relaxed),
+        };
+        // every later lookup must answer what the reference map says
+        for (p, got) in s.probes.iter().zip(&pv) {
+            let al = r.model.lookup_allowed(p);
+            if !al.contains(got) {
+                ok = false;
+                let class = match got {
+                    Out::Executed(_) if r.model.lookup(p).is_none() => "lookup-finds-unregistered-hash",
+                    Out::Executed(_) => "lookup-runs-other-document",
+                    Out::NotFound => "registered-document-not-found",
+                    Out::Panic(_) => "panic",
+                    _ => "hash-only-fails-without-PersistedQueryNotFound",
+                };
+                report(cx, s, kind, hist, class, format!("after the history, hash-only({p}) answers {}; the reference map {:?} admits {:?}", got.code(), r.model.entries, al.iter().map(|o| o.code()).collect::<Vec<_>>()));
+                break;
+            }
+            if !r.model.exact() && r.model.lookup(p).is_some() && *got == Out::NotFound {
+                c.lru_registered_not_found.fetch_add(1, Ordering::Relaxed);
+            }
+        }
+        if let Some(cs) = &contents {
+            let want: Vec<(String, String)> = r.model.entries.iter().map(|(h, d)| (h.clone(), format!("D{}", d + 1))).collect();
+            if *cs != want {
+                ok = false;
+                report(cx, s, kind, hist, "storage-contents-differ", format!("after {}, the storage holds {:?}; the reference map holds {:?}", e.name, cs, want));
+            }
+        }
+        // a request that registers nothing must leave every later lookup (and the storage) as it was
+        let prev_model = replay_model_before(s, kind, hist);
+        if prev_model == r.model {
+            c.unchanged_checks.fetch_add(1, Ordering::Relaxed);
+            let prev = memo.lock().unwrap().get(&(kind, hist[..hist.len() - 1].to_vec())).cloned();
+            let (ppv, pcontents) = match prev {
+                Some(x) => x,
+                None => {
+                    let pr = replay_hist(s, kind, &hist[..hist.len() - 1], &c.traces);
+                    (probe_vector(s, kind, &hist[..hist.len() - 1], &c.traces), fifo_contents(s, &pr.world))
+                }
+            };
+            if ppv != pv || pcontents != contents {
+                ok = false;
+                let class = match &e.sem {
+                    Sem::Mismatch => "mismatched-request-changes-lookups",
+                    Sem::BadVersion => "unsupported-version-changes-lookups",
+                    _ => "non-registering-request-changes-lookups",
+                };
+                report(
+                    cx,
+                    s,
+                    kind,
+                    hist,
+                    class,
+                    format!("{} registers nothing, yet lookups of {:?} answered {:?} before it and {:?} after it (storage {:?} -> {:?})", e.name, s.probes.iter().map(|p| &p[..p.len().min(8)]).collect::<Vec<_>>(), ppv.iter().map(|o| o.code()).collect::<Vec<_>>(), pv.iter().map(|o| o.code()).collect::<Vec<_>>(), pcontents, contents),
+                );
+            }
+        }
+        // non-trivial: a lookup or a must-reject request taken where something is registered, or a registration
+        let nt = match &e.sem {
+            Sem::Register { .. } => true,
+            Sem::Plain { .. } => false,
+            _ => !prev_model.entries.is_empty(),
+        };
+        if nt {
+            cx.nontrivial(agv_engine::h64(&(kind, &prev_model.entries, hist.last().unwrap())));
+        }
+        let id = agv_engine::h64(&(kind, hist));
+        cx.sample_with(id, || json!({"storage": kind.name(), "history": names(s, hist), "outcomes": r.outs.iter().map(|o| o.code()).collect::<Vec<_>>(), "reference_map": r.model.entries.iter().map(|(h, d)| format!("{}…→D{}", &h[..8], d + 1)).collect::<Vec<_>>()}));
+    }
+    memo.lock().unwrap().insert((kind, hist.to_vec()), (pv.clone(), contents.clone()));
+    let last = r.outs.last().map(|o| o.code()).unwrap_or_default();
+    let last_sem = hist.last().map(|i| sem_tag(&s.alpha[*i as usize].sem)).unwrap_or("");
+    let key = agv_engine::h64(&(kind, &r.model.entries, last, last_sem, pv.iter().map(|o| o.code()).collect::<Vec<_>>(), &contents));
+    Some(Step { key, expand: ok })
+}
+
+/// The reference map before the last event (folded over admitted outcomes of a fresh replay of the prefix).
+fn replay_model_before(s: &Setup, kind: Kind, hist: &[u16]) -> Model {
+    let dummy = AtomicU64::new(0);
+    replay_hist(s, kind, &hist[..hist.len() - 1], &dummy).model
+}
+
+// ---------------------------------------------------------------------------------------------
+// flood: reach real evictions of LruCacheStorage
+// ---------------------------------------------------------------------------------------------
+
+fn flood(cx: &Cx, s: &Setup, cap: usize, fillers: usize) -> Value {
+    let kind = Kind::Lru(cap);
+    let w = world(kind);
+    let d = &s.ds;
+    let mut evicted = 0u64;
+    let mut survived = 0u64;
+    let mut judge = |what: String, got: Out, allowed: Vec<Out>, hist: Vec<String>| {
+        cx.eval();
+        if !allowed.contains(&got) {
+            let class = match &got {
+                Out::Executed(_) => "hash-only-runs-other-document",
+                Out::Panic(_) => "panic",
+                _ => "hash-only-fails-without-PersistedQueryNotFound",
+            };
+            cx.violation(
+                Violation::new(class, format!("{what} answered {}; admitted {:?}\n  storage {} after {fillers} filler registrations", got.code(), allowed.iter().map(|o| o.code()).collect::<Vec<_>>(), kind.name()), json!({"storage": kind.name(), "flood": fillers, "events": hist}))
+                    .key("event", "flood")
+                    .key("storage", "lru"),
+            );
+        }
+        got
+    };
+    let reg = |i: usize| exec(&w, d, d[i].text, &Some(pq(json!(1), json!(d[i].hash))));
+    let look = |h: &str| exec(&w, d, "", &Some(pq(json!(1), json!(h))));
+    judge("register(D1)".into(), reg(0), vec![Out::Executed(0)], vec![]);
+    judge("register(D2)".into(), reg(1), vec![Out::Executed(1)], vec![]);
+    // fillers: the text of D3 followed by a distinguishing comment — same document, different hash
+    let filler = |k: usize| format!("{} # filler {k}", d[2].text);
+    for k in 0..fillers {
+        let t = filler(k);
+        let got = exec(&w, d, &t, &Some(pq(json!(1), json!(sha_hex(&t)))));
+        judge(format!("register(filler {k})"), got, vec![Out::Executed(2)], vec![]);
+    }
+    for (i, h) in [(0usize, d[0].hash.clone()), (1, d[1].hash.clone())] {
+        match judge(format!("hash-only(H{})", i + 1), look(&h), vec![Out::Executed(i), Out::NotFound], vec![]) {
+            Out::NotFound => evicted += 1,
+            _ => survived += 1,
+        }
+    }
+    for k in [0, fillers / 3, fillers / 2, fillers - 2, fillers - 1] {
+        match judge(format!("hash-only(H(filler {k}))"), look(&sha_hex(&filler(k))), vec![Out::Executed(2), Out::NotFound], vec![]) {
+            Out::NotFound => evicted += 1,
+            _ => survived += 1,
+        }
+    }
+    // an evicted hash must be registrable again and then found
+    judge("register(D1) again".into(), reg(0), vec![Out::Executed(0)], vec![]);
+    judge("hash-only(H1) right after".into(), look(&d[0].hash), vec![Out::Executed(0), Out::NotFound], vec![]);
+    judge("hash-only(unknown)".into(), look(&"0".repeat(64)), vec![Out::NotFound], vec![]);
+    json!({"capacity": cap, "filler_registrations": fillers, "eviction_observed": evicted > 0, "survivor_observed": survived > 0})
+}
+
+// ---------------------------------------------------------------------------------------------
+
+pub fn run(cx: &Cx) {
+    let quick = cx.quick();
+    let (ndocs, depth) = if quick { (3, 4) } else { (4, 6) };
+    let s = setup(ndocs);
+    cx.rule(
+        "case = (storage kind, request history ≤ depth, next request). Requests: valid registration, hash-only lookup, hash mismatch, unknown / truncated / one-digit-off hashes, \
+         version ≠ 1, malformed persistedQuery payloads, plain requests, upper-case hashes, a matching hash over an unparsable text. Non-trivial = a registration, or a lookup / \
+         must-reject request issued where at least one document is registered; identified by (storage kind, reference map before, request).",
+    );
+    cx.assume("a rejected request is recognised by 'no resolver ran, data null, at least one error'; its message is judged only where the statement names it (PersistedQueryNotFound for hash-only lookups)");
+    cx.assume("non-canonical ways of supplying the right hash (upper-case hex, version given as \"1\"/1.0/absent, positional payload) may be rejected or honoured; a null payload may be rejected or ignored; all of them are still held to 'executes nothing else, registers nothing else'");
+    cx.assume("LruCacheStorage: scc::HashCache keeps at least 64 entries whatever capacity is asked, so inside the BFS no eviction happens and a registered hash that answers PersistedQueryNotFound is admitted but counted (lru_registered_not_found); evictions are reached by the separate flood scripts, whose outcome set {registered document, PersistedQueryNotFound} is all the statement fixes");
+    cx.assume("documents are identified by the resolvers that ran plus the response data (three/four documents with pairwise different resolver sets and response shapes); inside the harness storage by the Debug rendering of the stored ExecutableDocument");
+    cx.assume("finding a second text whose SHA-256 shares a prefix with a registered one is out of reach; hash-prefix confusion is exercised from the lookup side only (truncated hash, same first 8 digits with a different tail)");
+
+    let kinds = [Kind::Fifo(1), Kind::Fifo(2), Kind::Fifo(64), Kind::Lru(1), Kind::Lru(2), Kind::Lru(64)];
+    let memo: Memo = Mutex::new(HashMap::new());
+    let c = Counters { traces: AtomicU64::new(0), lru_registered_not_found: AtomicU64::new(0), executed: AtomicU64::new(0), rejected: AtomicU64::new(0), not_found: AtomicU64::new(0), unchanged_checks: AtomicU64::new(0) };
+    let idx: Vec<u16> = (0..s.alpha.len() as u16).collect();
+    let mut per_kind = serde_json::Map::new();
+    let mut all_complete = true;
+    for kind in kinds {
+        let st = bfs(&idx, &BfsCfg { max_depth: depth, max_states: 2_000_000 }, &|h: &[u16]| step(cx, &s, kind, &memo, &c, h));
+        cx.add_states(st.states);
+        cx.add_transitions(st.transitions);
+        if st.capped {
+            all_complete = false;
+        }
+        per_kind.insert(kind.name(), json!({"states": st.states, "transitions": st.transitions, "depth_completed": st.depth_completed, "capped": st.capped, "new_states_and_transitions_per_level": st.per_level}));
+        memo.lock().unwrap().clear();
+    }
+    let floods: Vec<Value> = [1usize, 2, 64].iter().map(|cap| flood(cx, &s, *cap, if quick { 400 } else { 2000 })).collect();
+    cx.add_traces(c.traces.load(Ordering::Relaxed) + 3);
+    cx.exhaustive(all_complete);
+    cx.extra("depth", json!(depth));
+    cx.extra("documents", json!(s.ds.iter().map(|d| json!({"text": d.text, "sha256": d.hash})).collect::<Vec<_>>()));
+    cx.extra("alphabet_size", json!(s.alpha.len()));
+    cx.extra("alphabet_by_kind", {
+        let mut m: std::collections::BTreeMap<&str, u64> = Default::default();
+        for e in &s.alpha {
+            *m.entry(sem_tag(&e.sem)).or_default() += 1;
+        }
+        json!(m)
+    });
+    cx.extra("probe_hashes", json!(s.probes.len()));
+    cx.extra("bfs_per_storage", Value::Object(per_kind));
+    cx.extra("last_outcomes", json!({"executed": c.executed.load(Ordering::Relaxed), "PersistedQueryNotFound": c.not_found.load(Ordering::Relaxed), "rejected_or_other": c.rejected.load(Ordering::Relaxed)}));
+    cx.extra("transitions_checked_for_unchanged_lookups", json!(c.unchanged_checks.load(Ordering::Relaxed)));
+    cx.extra("lru_registered_not_found", json!(c.lru_registered_not_found.load(Ordering::Relaxed)));
+    cx.extra("lru_flood", json!(floods));
+    let _ = BTreeSet::<u8>::new();
+}
+
+pub fn replay(case: &Value) -> String {
+    let Some(kind) = case["storage"].as_str().and_then(Kind::parse) else { return "case has no storage kind".into() };
+    let s = setup(case["docs"].as_u64().unwrap_or(3) as usize);
+    let evs: Vec<String> = case["events"].as_array().map(|a| a.iter().filter_map(|v| v.as_str().map(|x| x.to_string())).collect()).unwrap_or_default();
+    if let Some(n) = case["flood"].as_u64() {
+        return format!("flood script: register D1, D2, {n} fillers on {}, then look everything up — re-run the check to repeat it (bucket assignment inside scc::HashCache is randomly keyed)", kind.name());
+    }
+    let mut hist = Vec::new();
+    for n in &evs {
+        match s.alpha.iter().position(|e| e.name == *n) {
+            Some(i) => hist.push(i as u16),
+            None => return format!("unknown event {n}"),
+        }
+    }
+    let t = AtomicU64::new(0);
+    let r = replay_hist(&s, kind, &hist, &t);
+    let mut out = format!("storage {}\n", kind.name());
+    for (i, o) in hist.iter().zip(&r.outs) {
+        let e = &s.alpha[*i as usize];
+        out += &format!("  {:<34} {} -> {}\n", e.name, request_json(&e.query, &e.payload), o.code());
+    }
+    out += &format!("reference map (oldest first): {:?}\n", r.model.entries);
+    if let Some((k, al)) = &r.bad {
+        out += &format!("event #{k} is outside what the statement admits: {al:?}\n");
+    }
+    if let Some(cs) = fifo_contents(&s, &r.world) {
+        out += &format!("storage contents: {cs:?}\n");
+    }
+    let pv = probe_vector(&s, kind, &hist, &t);
+    for (p, o) in s.probes.iter().zip(&pv) {
+        out += &format!("  lookup {:<66} -> {}\n", p, o.code());
+    }
+    out
+}
+
+fn main() {
+    agv_engine::driver::main("C31", "model_checking", run, Some(replay))
+}
